@@ -215,6 +215,52 @@ def work_cells(seed: int) -> tuple:
                         viol.setdefault("listener-starved:cell", (f"later listener starved for cell prefix {cut}",
                                                                   {"cells": True, "seed": seed}))
                     del w.inflight[:]
+        # authentic cells (right keys, right direction) whose *contents* are empty or truncated: every message id with
+        # five short bodies, encrypted by the legitimate neighbour, forward to the exit and backward to the originator
+        from ipv8.messaging.anonymization.payload import CellPayload  # noqa: PLC0415
+        from ipv8.messaging.anonymization.tunnel import BACKWARD, FORWARD  # noqa: PLC0415
+        w2 = TunnelWorld(("c03-cells-auth", seed), {"O": RELAY, "X": EXIT_ALL}, key_offset=seed)
+        try:
+            sn = {nm: Sniffer(node.endpoint) for nm, node in w2.nodes.items()}
+            c1 = w2.build_circuit("O", ["X"])
+            o_ov, x_ov = w2.ov["O"], w2.ov["X"]
+            cid = c1.circuit_id
+            bodies = [b""] + [bytes([mid]) + t for mid in range(256) for t in (b"", b"\x00" * 4, b"\xff" * 6)]
+            for body in bodies:
+                for direction in (FORWARD, BACKWARD):
+                    cell = CellPayload(cid, body)
+                    if direction == FORWARD:
+                        o_ov.crypto_endpoint.encrypt_cell(cell, FORWARD, *c1.hops)
+                        target, src = w2.nodes["X"], w2.nodes["O"].address
+                    else:
+                        x_ov.crypto_endpoint.encrypt_cell(cell, BACKWARD, x_ov.exit_sockets[cid].hop)
+                        target, src = w2.nodes["O"], w2.nodes["X"].address
+                    for early in (False, True):
+                        cell.relay_early = early
+                        data = cell.to_bin(o_ov.get_prefix())
+                        n += 1
+                        seen0 = sn[target.name].seen
+                        try:
+                            target.endpoint.notify_listeners((src, data))
+                            w2.loop.settle()
+                        except Exception as e:  # noqa: BLE001
+                            import traceback
+                            tb = traceback.extract_tb(e.__traceback__)
+                            where = f"{tb[-1].filename.split('/ipv8/')[-1]}:{tb[-1].name}" if tb else "?"
+                            viol.setdefault(f"receive-raises:{type(e).__name__}:{where}",
+                                            (f"authentic cell with {len(body)}-byte content {body[:8].hex()} "
+                                             f"(direction {direction}) raised {type(e).__name__}: {e} at {where}",
+                                             {"cells": True, "seed": seed}))
+                            continue
+                        if sn[target.name].seen != seen0 + 1:
+                            viol.setdefault("listener-starved:cell", ("later listener starved (authentic cell)",
+                                                                      {"cells": True, "seed": seed}))
+                        del w2.inflight[:]
+                if cid not in o_ov.circuits or cid not in x_ov.exit_sockets:
+                    break   # a crafted destroy/close legitimately ended the circuit
+            kinds = kinds + ["authentic-short-content"]
+        finally:
+            w2.close()
         if w.loop.exceptions:
             viol.setdefault("loop-exception:cells", (str(w.loop.exceptions[0])[:300], {"cells": True, "seed": seed}))
         return n, kinds, viol
@@ -249,6 +295,88 @@ def work_snapshot(seed: int) -> tuple:
     if set(full.get_walkable_addresses()) != want:
         viol.setdefault("snapshot-roundtrip", (f"{sorted(full.get_walkable_addresses())} != {sorted(want)}", None))
     return n, len(snap), viol
+
+
+# ---- (d) demultiplexing under listener churn -------------------------------------------------------------------------
+
+class _CA(overlays.PlainCommunity):
+    community_id = bytes(range(1, 21))
+
+
+class _CB(overlays.PlainCommunity):
+    community_id = bytes(range(31, 51))
+
+
+CHURN_ALPHABET = ["dA", "dB", "dU", "loadA", "unloadA", "loadB", "unloadB", "sniff"]
+
+
+def work_churn(chunk: list) -> list:
+    """Each item is a first event; all sequences of the given depth starting with it are run on a fresh endpoint."""
+    out = []
+    for first, depth, seed in chunk:
+        n = 0
+        viol: dict = {}
+        for rest in itertools.product(range(len(CHURN_ALPHABET)), repeat=depth - 1):
+            seq = [CHURN_ALPHABET[first]] + [CHURN_ALPHABET[i] for i in rest]
+            w = simnet.World(("c03-churn", seed))
+            try:
+                node = w.add_node("H", fixtures.rotate(seed, 1)[0])
+                live: dict = {}
+                got: list = []
+                sniffers: list = []
+                gen = 0
+
+                def load(cls, tag):  # noqa: ANN001, ANN202
+                    nonlocal gen
+                    gen += 1
+                    o = node.add_overlay(cls)
+                    me = (tag, gen)
+                    orig = o.on_packet
+                    o.on_packet = lambda packet, warn_unknown=True, me=me, orig=orig: (got.append(me), orig(packet))[1]
+                    # the endpoint holds the listener object and calls listener.on_packet: instance attribute wins
+                    live[tag] = (o, me)
+
+                for step, ev in enumerate(seq):
+                    if ev in ("dA", "dB", "dU"):
+                        prefix = {"dA": b"\x00\x02" + _CA.community_id, "dB": b"\x00\x02" + _CB.community_id,
+                                  "dU": b"\x00\x02" + bytes(20)}[ev]
+                        del got[:]
+                        s0 = [x.seen for x in sniffers]
+                        n += 1
+                        try:
+                            node.endpoint.notify_listeners((("66.66.66.66", 6666), prefix + b"\xf9" + b"\x00" * 8))
+                            w.loop.settle()
+                        except Exception as e:  # noqa: BLE001
+                            viol.setdefault(f"churn-raises:{type(e).__name__}", (f"{seq[:step + 1]}: {e}",
+                                                                                 {"churn": seq[:step + 1], "seed": seed}))
+                            continue
+                        want = sorted(me for tag, (o, me) in live.items())   # every registered overlay sees it ...
+                        # ... through its on_packet; which of them *handles* it is decided by the prefix test inside.
+                        # Endpoint contract: prefix listeners get their own prefix, generic listeners get everything.
+                        want = sorted(me for tag, (o, me) in live.items()
+                                      if (tag == "A" and ev == "dA") or (tag == "B" and ev == "dB"))
+                        if sorted(got) != want:
+                            viol.setdefault("demux-wrong-listeners",
+                                            (f"after {seq[:step + 1]} the datagram reached overlay instances {sorted(got)}, "
+                                             f"registered for that prefix: {want}", {"churn": seq[:step + 1], "seed": seed}))
+                        if any(x.seen != a + 1 for x, a in zip(sniffers, s0)):
+                            viol.setdefault("demux-generic-listener-starved",
+                                            (f"after {seq[:step + 1]} a generic listener missed the datagram",
+                                             {"churn": seq[:step + 1], "seed": seed}))
+                    elif ev == "loadA" and "A" not in live:
+                        load(_CA, "A")
+                    elif ev == "loadB" and "B" not in live:
+                        load(_CB, "B")
+                    elif ev == "unloadA" and "A" in live:
+                        w.loop.drive(live.pop("A")[0].unload())
+                    elif ev == "unloadB" and "B" in live:
+                        w.loop.drive(live.pop("B")[0].unload())
+                    elif ev == "sniff" and len(sniffers) < 2:
+                        sniffers.append(Sniffer(node.endpoint))
+            finally:
+                w.close()
+        out.append((n, viol))
+    return out
 
 
 # ---- (b) decoders ---------------------------------------------------------------------------------------------------
@@ -287,6 +415,12 @@ def run(ctx: core.Ctx) -> core.Report:
     n_snap, snaplen, v = work_snapshot(seed)
     for key, (what, rp) in v.items():
         violations.append(core.Violation(key, what, rp))
+    depth = 6 if ctx.thorough else 5
+    churn = core.pmap(work_churn, [(i, depth, seed) for i in range(len(CHURN_ALPHABET))], ctx.jobs, chunk=1)
+    n_churn = sum(c[0] for c in churn)
+    for _, viol in churn:
+        for key, (what, rp) in viol.items():
+            violations.append(core.Violation(key, what, rp))
     dec = {"evaluations": 0, "classes": 0, "note": "decoder part unavailable"}
     try:
         from . import c02  # noqa: PLC0415
@@ -301,7 +435,7 @@ def run(ctx: core.Ctx) -> core.Report:
                     violations.append(core.Violation(key, what, rp))
     except ImportError:
         pass
-    total = evals + n_cells + n_snap + dec["evaluations"]
+    total = evals + n_cells + n_snap + dec["evaluations"] + n_churn
     cov = {
         "evaluations": total,
         "distinct_nontrivial": total - len(items),
@@ -317,6 +451,7 @@ def run(ctx: core.Ctx) -> core.Report:
         "handler_entries_observed": entered,
         "cell_inputs": n_cells, "cell_kinds": cell_kinds,
         "snapshot_inputs": n_snap,
+        "demux_churn": {"deliveries": n_churn, "depth": depth, "alphabet": CHURN_ALPHABET},
         "decoder_part": dec,
         "hosts": {k: v for k, v in hosts.items()},
     }
@@ -329,6 +464,13 @@ def run(ctx: core.Ctx) -> core.Report:
 def replay(ctx: core.Ctx, data) -> list:  # noqa: ANN001
     if not data:
         return []
+    if data.get("churn"):
+        seq = data["churn"]
+        first = CHURN_ALPHABET.index(seq[0])
+        out = []
+        for _, viol in work_churn([(first, len(seq), data["seed"])]):
+            out += [core.Violation(k, w) for k, (w, rp) in viol.items()]
+        return out
     if data.get("cells"):
         return [core.Violation(k, w) for k, (w, _) in work_cells(data["seed"])[2].items()]
     if "snapshot" in data:
